@@ -443,12 +443,30 @@ func (r *Runner) Do(idx int, s Step) *Mismatch {
 			f, err = st.Create(ctx, s.Key)
 			if err == nil {
 				rest := content
+				// every other file is written the way io.Copy does it: from one chunk buffer that
+				// is refilled (here: scribbled over) as soon as Write has returned
+				reuse := len(s.Pieces)%2 == 0
+				var chunk []byte
 				for i := 0; len(rest) > 0 || i < len(s.Pieces); i++ {
 					n := len(rest)
 					if i < len(s.Pieces) && s.Pieces[i] < n {
 						n = s.Pieces[i]
 					}
-					if _, werr := f.Write(rest[:n]); werr != nil {
+					p := rest[:n]
+					if reuse {
+						if cap(chunk) < n {
+							chunk = make([]byte, n)
+						}
+						p = chunk[:n]
+						copy(p, rest[:n])
+					}
+					_, werr := f.Write(p)
+					if reuse {
+						for j := range p {
+							p[j] = '#'
+						}
+					}
+					if werr != nil {
 						err = werr
 						break
 					}
